@@ -17,6 +17,7 @@ def faults(pr):
         out.append(("blank", path, None))
         out.append(("empty", path, None))
         out.append(("whitespace", path, None))
+        out.append(("non_utf8", path, None))
         for i in range(len(pairs)):
             out.append(("break_pattern", path, i))
     return out
@@ -32,6 +33,8 @@ def apply_fault(pr, p, fault):
         p.write_text(path, "")                       # e.g. an empty __init__.py
     elif kind == "whitespace":
         p.write_text(path, " \n\t\n\n")
+    elif kind == "non_utf8":
+        p.write_bytes(path, b"# \xa9 J\xfcrgen\n" + p.read_bytes(path))     # a Latin-1 header: the file cannot be read as UTF-8
     else:
         # remove the occurrence of one pattern: drop the lines that carry it
         lay = [f for f in pr["layout"] if f["name"] == path][0]
@@ -69,6 +72,8 @@ def run_fault(pr, fault, vcs, dry_first, set_version):
     # a fault that leaves every pattern matched elsewhere in the file is not a fault (break_pattern may remove
     # one of several occurrences only); a successful run is then legitimate
     if code == 0:
+        if fault[0] == "non_utf8":
+            return case, "update exited 0 although file %r is not valid UTF-8" % fault[1]
         if fault[0] in ("remove", "blank", "empty", "whitespace"):
             return case, "update exited 0 although file %r is %s" % (fault[1], "missing" if fault[0] == "remove" else "without any match (%s)" % fault[0])
         # break_pattern: does the pattern really have no match left in its file?  (independent reference regex)
@@ -108,7 +113,7 @@ def run(chk, driver, tier):
             chk.oracle_case(case, verdict)
         # correspondence on the function level with a random fault
         files = dict(pr["files"])
-        fault = rng.choice(fl)
+        fault = rng.choice([f for f in fl if f[0] != "non_utf8"])
         if fault[0] == "remove":
             del files[fault[1]]
         elif fault[0] == "blank":
